@@ -277,7 +277,11 @@ def drive(case, decorated):
             finally:
                 for cm in reversed(pre):
                     cm.__exit__(None, None, None)
-        for step in case["script"]:
+        for step_index, step in enumerate(case["script"]):
+            if decorated and case.get("finish_early") == step_index:
+                # the driver finishes one of its actions while generators started under it are still suspended: their
+                # context stays that (now finished) action
+                B.finish()
             if env.spawned:
                 gens.extend(env.spawned)
                 del env.spawned[:]
@@ -398,10 +402,13 @@ def check(case):
         % (_first_diff(env_d.trace, env_u.trace), env_d.trace[: _first_diff(env_d.trace, env_u.trace) + 2][-3:], env_u.trace[: _first_diff(env_d.trace, env_u.trace) + 2][-3:]),
     )
     require(not unraisable, "unraisable", lambda: "unraisable exceptions reported: %r" % (unraisable[:2],))
-    invariants.check_messages(msgs, causal=False)
-    got = conc.observed_shape(msgs)
-    want = sorted((conc.model_shape(r) for r in env_d.roots), key=canon)
-    require(canon(got) == canon(want), "forest-differs-from-model", lambda: "observed %s\nexpected %s" % (canon(got)[:1500], canon(want)[:1500]))
+    if case.get("finish_early") is None or case["finish_early"] >= len(case["script"]):
+        # (with an action finished early, what is logged into it afterwards lies behind its end message: only the
+        # context and transparency clauses are judged then)
+        invariants.check_messages(msgs, causal=False)
+        got = conc.observed_shape(msgs)
+        want = sorted((conc.model_shape(r) for r in env_d.roots), key=canon)
+        require(canon(got) == canon(want), "forest-differs-from-model", lambda: "observed %s\nexpected %s" % (canon(got)[:1500], canon(want)[:1500]))
     vias = set((s[4] if len(s) > 4 else 0) for s in case["script"])
     ops = set(s[1] for s in case["script"])
     ctxs = set(s[3] for s in case["script"])
@@ -426,6 +433,8 @@ def classify(case, info):
     text = canon(case["gens"])
     if case.get("layered"):
         labels.append("decorated-again-below-a-functools.wraps-decorator")
+    if case.get("finish_early") is not None and case["finish_early"] < len(case["script"]):
+        labels.append("driver-action-finished-while-generators-are-suspended")
     if info.get("max_in_shared", 0) >= 2:
         labels.append("two-generators-inside-the-shared-action's-context-at-once")
     if any(c is not None for c in case.get("create_ctx") or []):
@@ -475,7 +484,8 @@ def strategy():
     ).map(list)
     return st.integers(1, 3).flatmap(
         lambda n: st.builds(
-            lambda layered, wrap, created, script, gens: {"layered": layered, "create_ctx": created, "script": script, "gens": [[["shared", g]] for g in gens] if wrap else gens},
+            lambda fe, layered, wrap, created, script, gens: {"finish_early": fe, "layered": layered, "create_ctx": created, "script": script, "gens": [[["shared", g]] for g in gens] if wrap else gens},
+            st.sampled_from([None, None, None, 1, 2, 3, 5]),
             st.sampled_from([False, False, True]),
             st.sampled_from([False, False, False, True]),
             st.lists(st.sampled_from([None, None, 0, 1, 2, 3]), min_size=n, max_size=n),
